@@ -36,6 +36,44 @@ class JournalGraph(nx.Graph):
         self.journal.append(("remove", u, v, d))
         return super().remove_edge(u, v)
 
+    # bulk mutators do not pass through add_edge / remove_edge in networkx: they are recorded as such, so that a
+    # journal is either complete or recognisably of another shape (then only the returned graph is judged)
+    def add_edges_from(self, ebunch_to_add, **attr):
+        ebunch_to_add = list(ebunch_to_add)
+        self.journal.append(("bulk_add", len(ebunch_to_add)))
+        return super().add_edges_from(ebunch_to_add, **attr)
+
+    def remove_edges_from(self, ebunch):
+        ebunch = list(ebunch)
+        self.journal.append(("bulk_remove", len(ebunch)))
+        return super().remove_edges_from(ebunch)
+
+    def update(self, *a, **k):
+        self.journal.append(("bulk_update", 0))
+        return super().update(*a, **k)
+
+    def clear(self):
+        self.journal.append(("bulk_clear", 0))
+        return super().clear()
+
+    def remove_node(self, n):
+        self.journal.append(("bulk_remove_node", 0))
+        return super().remove_node(n)
+
+    def copy(self, as_view=False):
+        H = super().copy(as_view=as_view)
+        if isinstance(H, JournalGraph):
+            H.journal.clear()  # filling the copy is not a mutation of interest
+        return H
+
+
+def pristine_shaped(journal):
+    """True if the journal consists of swap batches as the pinned implementation writes them: single-edge adds
+    followed by as many single-edge removes, nothing else."""
+    if any(ev[0] not in ("add", "remove") for ev in journal):
+        return False
+    return all(b["adds"] and len(b["adds"]) == len(b["removes"]) for b in batches(journal))
+
 
 def excess_keys(case):
     """per topology index: sorted list of excess tuples occurring in the network."""
@@ -131,6 +169,9 @@ def mcmc_case(draw, tier, holes=False, maxN=None):
     net["node_order"] = draw(st.sampled_from(["sorted", "sorted", "by_motifs"]))
     net["jd_type"] = draw(st.sampled_from(["tuple", "tuple", "list", "ndarray"]))
     net["tagged"] = draw(st.booleans())
+    # vertex names: 0..N-1, or shifted to start at -2 (hash(-1) == hash(-2)), or with vertex 1 renamed 2**61 - 1
+    # (hash(2**61 - 1) == hash(0)): distinct vertices whose hashes collide
+    net["labels"] = draw(st.sampled_from(["id", "id", "id", "neg", "mersenne"]))
     L = draw(st.sampled_from([0, 0, 1, 2, 3, 5, 10, 25, 60]))
     nedges = sum(len(NC.motif_edges(net["topos"][ti]["kind"], vs)) for ti, vs in net["motifs"])
     if nedges <= 40 and draw(st.integers(0, 5)) == 5:
@@ -186,6 +227,10 @@ def run_rewire(case):
     from gcmpy import (Network, MarkovChainMonteCarloRewiring, JointExcessJointDegreeMatrices, ToolsNames as TN)
     net = case["net"]
     G, jds = NC.build_graph(net, graph_cls=JournalGraph)
+    lab = {"neg": lambda v: v - 2, "mersenne": lambda v: 2 ** 61 - 1 if v == 1 else v}.get(net.get("labels"))
+    if lab:
+        G = nx.relabel_nodes(G, {v: lab(v) for v in G.nodes()}, copy=True)
+        jds = {lab(v): jd for v, jd in enumerate(jds)}
     G.journal.clear()
     N = Network()
     N.G = G
@@ -217,6 +262,15 @@ def run_rewire(case):
         orig_init(self, *a, **k)
         created.append(self)
     JournalGraph.__init__ = init
+    # backstop for chains whose randomness is not drawn through the owned source (the draw budget then never runs
+    # out): a wall-clock limit per run (6 s; an ordinary run takes milliseconds), reported as inconclusive exactly like an exhausted budget -- never a violation
+    import os
+    import signal
+
+    def _expired(signum, frame):
+        raise rng.Budget()
+    old_handler = signal.signal(signal.SIGALRM, _expired)
+    signal.setitimer(signal.ITIMER_REAL, float(os.environ.get("VERIF_CASE_S", "6")))
     try:
         with ctx:
             try:
@@ -227,6 +281,8 @@ def run_rewire(case):
                     other = {"N": n_, "topos": net["topos"],
                              "motifs": [[ti, [(v + sh) % n_ for v in vs]] for ti, vs in net["motifs"]]}
                     G0, _ = NC.build_graph(other)
+                    if lab:
+                        G0 = nx.relabel_nodes(G0, {v: lab(v) for v in G0.nodes()}, copy=True)
                     N0 = Network()
                     N0.G = G0
                     p0 = dict(params)
@@ -246,6 +302,8 @@ def run_rewire(case):
             except Exception as e:  # noqa
                 R.error = e
     finally:
+        signal.setitimer(signal.ITIMER_REAL, 0)
+        signal.signal(signal.SIGALRM, old_handler)
         JournalGraph.__init__ = orig_init
     if R.out is not None and isinstance(R.out, JournalGraph) and R.out is not G:
         R.journal = list(R.out.journal)
@@ -254,6 +312,12 @@ def run_rewire(case):
         cands = [g for g in created if g is not G and g.journal]
         R.work = cands[-1] if cands else None
         R.journal = list(R.work.journal) if R.work is not None else []
+    R.journal_shape = "swap_batches"
+    if R.journal and not pristine_shaped(R.journal):
+        # the working copy is edited in another way (bulk calls, removes before adds, a freshly built graph, ...):
+        # no per-swap analysis, the returned graph alone is judged
+        R.journal_shape = "other"
+        R.journal = []
     R.input_journal = list(G.journal)
     R.after = snapshot(G)
     return R
